@@ -131,6 +131,7 @@ type Spec struct {
 		C   Clause
 	}
 	AxiomGroups []string // parallel to Axioms: the group label ("" = none)
+	sweepDup    map[string]*Contract
 }
 
 func newSpec() *Spec {
@@ -208,7 +209,23 @@ func (sp *Spec) loadFile(path string, pkg string) error {
 				c.Pkg, key = key[:j], key[j+2:]
 			}
 			c.Key = key
-			if _, dup := sp.Contracts[c.Pkg+"::"+key]; dup {
+			if prev, dup := sp.Contracts[c.Pkg+"::"+key]; dup {
+				// a function of the zero-annotation sweep that also has a hand-written contract: the hand-written
+				// one wins and additionally counts for C07 (its run-time-error obligations are generated anyway)
+				if sp.sweepDup == nil {
+					sp.sweepDup = map[string]*Contract{}
+				}
+				if prev.File != path && strings.HasSuffix(path, "sweep_verif.go") {
+					sp.sweepDup[c.Pkg+"::"+key] = prev
+					cur = c // directives of the sweep entry go to a throw-away contract
+					continue
+				}
+				if prev.File != path && strings.HasSuffix(prev.File, "sweep_verif.go") {
+					sp.sweepDup[c.Pkg+"::"+key] = c
+					sp.Contracts[c.Pkg+"::"+key] = c
+					cur = c
+					continue
+				}
 				return fail(fmt.Errorf("duplicate contract for %s", key))
 			}
 			sp.Contracts[c.Pkg+"::"+key] = c
@@ -345,6 +362,15 @@ func (sp *Spec) loadFile(path string, pkg string) error {
 		}
 	}
 	return nil
+}
+
+// finishSweep: hand-written contracts that replaced a sweep entry also count for C07.
+func (sp *Spec) finishSweep() {
+	for _, c := range sp.sweepDup {
+		if !c.hasProp("C07") && !c.Trusted && !c.NoRte {
+			c.Props = append(c.Props, "C07")
+		}
+	}
 }
 
 func splitWord(s string) (string, string) {
